@@ -60,6 +60,8 @@ REQUIRED_SLOTS = ('sqrt', 'exp', 'log', 'power', 'cos', 'sin', 'tan', 'acos', 'a
                   'tanh', 'acosh', 'asinh', 'atanh', 'cbrt', 'cospi', 'sinpi')
 CUT_FUNCS = {'acos': 'real', 'asin': 'real', 'atanh': 'real', 'atan': 'imag', 'asinh': 'imag'}
 NEG_ZERO_SIDE = {'real': '%s.real > 0', 'imag': '%s.imag < 0'}
+# functions whose cut is the real axis below a point: mp continues from above (zero imaginary part taken as +0)
+NEG_CUT_FUNCS = {'sqrt': 0.0, 'log': 0.0, 'pow': 0.0, 'cbrt': 0.0, 'acosh': 1.0}
 # math2 bindings that are not elementary functions (outside the scope of the property's last clause;
 # their pairing is a hand-written real/complex algorithm, not a math/cmath sibling pair)
 NOT_ELEMENTARY = {'gamma': 'special function', 'rgamma': 'special function', 'digamma': 'special function',
@@ -350,6 +352,13 @@ def check_bindings(run, ix):
                     run.fail(F('F-R6', MATH2, name, st, why))
                 else:
                     run.ok('F-R6', '%s: argument normalised onto mp\'s side of the %s-axis cut' % (name, CUT_FUNCS[name]))
+        if name in NEG_CUT_FUNCS:
+            why = neg_cut_problem(name, cexp, NEG_CUT_FUNCS[name], m2)
+            if why:
+                run.fail(F('F-R6', MATH2, name, st, why))
+            else:
+                run.ok('F-R6', '%s: a zero imaginary part on the cut x < %g is taken as +0 (mp\'s side)'
+                       % (name, NEG_CUT_FUNCS[name]))
     return binds
 
 
@@ -388,6 +397,57 @@ def cut_helper_problem(cexp, axis, m2):
     if not (isinstance(par, ast.If) and neg in par.body and norm(par.test) == want):
         return ('helper %s gives the zero %s part the negative sign under `%s`; mp\'s side of the cut needs it '
                 'exactly under `%s`' % (h.name, zero_part, norm(par.test) if isinstance(par, ast.If) else '?', want))
+    return None
+
+
+def neg_cut_problem(name, cexp, below, m2):
+    """sqrt, log, the powers and cbrt are cut along x < 0, acosh along x < 1; mp (no signed zeros) continues from
+    above.  The complex alternative must pass its argument (the base, for a power) through a helper that
+    returns complex(p.real, 0.0) exactly under `p.imag == 0 and p.real < <below>`, with `below` as required."""
+    calls = [c for c in ast.walk(cexp) if isinstance(c, ast.Call) and isinstance(c.func, ast.Name)
+             and c.func.id.endswith('_cut')]
+    if not calls:
+        return ('the complex fallback of %s takes its argument as it is: for complex(x, -0.0) with x < %g cmath '
+                'continues the cut from below and returns the conjugate of the mp value (fp.sqrt(complex(-4.0, -0.0)) '
+                '== -2j, mp gives 2j)' % (name, below))
+    for c in calls:
+        h = [f for f in m2.m.funcs.values() if f.name == c.func.id and f.parent is None]
+        if not h:
+            return 'cut helper %s not found' % c.func.id
+        h = h[0]
+        p = h.params[0]
+        # the threshold: second argument of the call, else the default of the helper's second parameter
+        thr = None
+        if len(c.args) > 1 and isinstance(c.args[1], ast.Constant):
+            thr = c.args[1].value
+        elif len(h.params) > 1 and h.node.args.defaults and isinstance(h.node.args.defaults[-1], ast.Constant):
+            thr = h.node.args.defaults[-1].value
+            bname = h.params[1]
+        elif len(h.params) == 1:
+            thr = 'literal'
+        rets = [r for r in _walk_own(h.node) if isinstance(r, ast.Return) and isinstance(r.value, ast.Call)
+                and norm(r.value.func) == 'complex']
+        if len(rets) != 1:
+            return 'helper %s does not rewrite exactly one case' % h.name
+        r = rets[0]
+        if norm(r.value.args[0]) != p + '.real' or not (isinstance(r.value.args[1], ast.Constant)
+                                                         and r.value.args[1].value == 0 and
+                                                         str(r.value.args[1].value)[0] != '-'):
+            return 'helper %s does not return complex(%s.real, +0.0)' % (h.name, p)
+        par = r._parent
+        if not isinstance(par, ast.If) or r not in par.body:
+            return 'helper %s rewrites unconditionally' % h.name
+        t = norm(par.test)
+        ok_forms = []
+        if len(h.params) > 1:
+            ok_forms.append('%s.imag == 0 and %s.real < %s' % (p, p, h.params[1]))
+        ok_forms.append('%s.imag == 0 and %s.real < %s' % (p, p, below))
+        ok_forms.append('%s.imag == 0 and %s.real < %d' % (p, p, int(below)))
+        if t not in ok_forms:
+            return 'helper %s rewrites under `%s`; the cut of %s needs `%s`' % (h.name, t, name, ok_forms[-2])
+        if thr != 'literal' and float(thr) != float(below):
+            return ('%s passes the threshold %s to %s; its cut is x < %g (acosh is cut below 1, the others below 0)'
+                    % (name, thr, h.name, below))
     return None
 
 
@@ -440,7 +500,42 @@ def siblings_agree(name, ralts, calts, m2):
     return True, '; '.join(sorted(set(notes)))
 
 
+def strip_cut_helpers(e, m2):
+    """the expression with every call H(x[, const]) of a value-preserving cut helper replaced by x"""
+    class T(ast.NodeTransformer):
+        def visit_Call(self, c):
+            self.generic_visit(c)
+            if isinstance(c.func, ast.Name) and 1 <= len(c.args) <= 2 and \
+                    all(isinstance(a, ast.Constant) for a in c.args[1:]):
+                h = [f for f in m2.m.funcs.values() if f.name == c.func.id and f.parent is None]
+                if h and h[0].name.endswith('_cut') and helper_preserves_value(h[0]):
+                    return c.args[0]
+            return c
+    import copy
+    return ast.fix_missing_locations(T().visit(copy.deepcopy(e)))
+
+
 def pair_agrees(name, rk, rw, ck, cw, m2):
+    if ck == 'lambda' and name in NEG_CUT_FUNCS:
+        # the complex alternative with its cut helper removed must be the plain sibling
+        body = strip_cut_helpers(cw.body, m2)
+        ps = [a.arg for a in cw.args.args]
+        va = cw.args.vararg.arg if cw.args.vararg else None
+        t = norm(body, 200)
+        if rk == 'def':
+            ga0 = guard_alias_of(rw)
+        else:
+            ga0 = None
+        real_name = rw if rk == 'math' else (ga0[1] if ga0 else None)
+        if real_name and len(ps) == 1 and t == 'cmath.%s(%s)' % (real_name, ps[0]):
+            return True, 'math.%s / cmath.%s (argument through a zero-sign helper)' % (real_name, real_name)
+        if real_name and va and t == 'cmath.%s(*[z for z in %s])' % (real_name, va):
+            return True, 'math.%s / cmath.%s on every argument (through a zero-sign helper)' % (real_name, real_name)
+        if rk == 'operator' and rw == 'pow' and len(ps) == 2 and t in ('complex(%s) ** %s' % (ps[0], ps[1]),
+                                                                        '%s ** %s' % (ps[0], ps[1])):
+            return True, 'operator.pow / complex power (base through a zero-sign helper)'
+        if rk == 'def' and len(ps) == 1 and t == '%s(%s)' % (rw.name, ps[0]):
+            return True, '%s on both sides (complex argument through a zero-sign helper)' % rw.name
     if rk == 'def':
         ga = guard_alias_of(rw)
         if ga is not None:
@@ -458,6 +553,8 @@ def pair_agrees(name, rk, rw, ck, cw, m2):
         # power form: operator.pow-like `complex(x) ** y` handled below
         return False, 'lambda bodies differ: %s vs %s' % (a, b)
     if rk == 'math' and ck == 'lambda':
+        if not cw.args.args:
+            return False, 'math.%s paired with %s' % (rw, norm(cw.body, 80))
         # componentwise extension: complex(math.N(z.real), math.N(z.imag))
         p = cw.args.args[0].arg
         want = 'complex(math.%s(%s.real), math.%s(%s.imag))' % (rw, p, rw, p)
@@ -879,11 +976,12 @@ def run(run, ix, tier):
     run.rule('F-R3', floor=15)
     run.rule('F-R4', floor=25)
     run.rule('F-R5', floor=1)
-    run.rule('F-R6', floor=5)
+    run.rule('F-R6', floor=10)
     run.rule('F-R7', floor=60)
     run.rule('F-R9', floor=1, desc='large-argument shortcut of the *pi functions starts at 2^53')
     run.rule('F-R8', floor=5, desc='error amplification without guard digits')
     check_wrappers(run, ix)
+    check_log1p_precision(run, ix)
     binds = check_bindings(run, ix)
     nslots = check_fp_table(run, ix)
     check_no_fallthrough(run, ix)
@@ -904,3 +1002,45 @@ def run(run, ix, tier):
         raise AnalysisError('built-in positive example for F-R2 did not fire')
     if classify_real('math', 'cbrt', None)[0] != 'nonprincipal':
         raise AnalysisError('built-in positive example for F-R3 did not fire')
+
+
+# --------------------------------------------------------------------------- F-R12
+LOG1P_FAMILY = (('mpmath/libmp/libelefun.py', 'mpf_asinh'), ('mpmath/libmp/libelefun.py', 'mpf_atanh'),
+                ('mpmath/libmp/libelefun.py', 'mpf_acosh'), ('mpmath/libmp/libmpc.py', 'mpc_atan'),
+                ('mpmath/libmp/libmpc.py', 'mpc_atanh'), ('mpmath/libmp/libmpc.py', 'acos_asin'))
+
+
+def check_log1p_precision(run, ix):
+    """F-R12 (mp side of the agreement).  The inverse functions are logarithms of 1 + t with t -> 0 as the argument
+    goes to 0 (or to 1, for acosh): a sum 1 + t formed at prec + constant bits keeps only prec + log2|t| correct
+    bits of t, and the function loses all digits for small arguments while fp, which uses the hardware log1p-based
+    routines, stays right (mp.atanh(mpc(1e-8, 0)) was off by 1.8e-13, mp.asinh(mpc(1e-20, 0)) was 0).  Sibling
+    rule over the family: every member that takes a logarithm must raise its working precision by a
+    magnitude-dependent amount (an assignment or `+=` to the precision name whose right side mentions something
+    besides the precision and constants) before the sums are formed."""
+    run.rule('F-R12', floor=6, desc='log(1+t) sums of the inverse functions carry magnitude-dependent precision')
+    for rel, name in LOG1P_FAMILY:
+        f = ix.func(rel, name)
+        logs = [c for c in _walk_own(f.node) if isinstance(c, ast.Call) and norm(c.func) in ('mpf_log', 'mpc_log')]
+        if not logs:
+            run.ok('F-R12', '%s takes no logarithm itself' % name)
+            continue
+        adaptive = []
+        for st in _walk_own(f.node):
+            tgt = val = None
+            if isinstance(st, ast.AugAssign) and isinstance(st.target, ast.Name) and isinstance(st.op, ast.Add):
+                tgt, val = st.target.id, st.value
+            elif isinstance(st, ast.Assign) and len(st.targets) == 1 and isinstance(st.targets[0], ast.Name):
+                tgt, val = st.targets[0].id, st.value
+            if tgt is None or not tgt.startswith(('wp', 'prec')):
+                continue
+            names = {n.id for n in ast.walk(val) if isinstance(n, ast.Name)} - {'prec', 'wp', 'max', 'min', 'abs'}
+            if names:
+                adaptive.append(st)
+        if adaptive:
+            run.ok('F-R12', '%s: working precision follows the magnitude (`%s`)' % (name, norm(adaptive[0], 50)))
+        else:
+            run.fail(F('F-R12', rel, name, norm(logs[0]), 'the logarithm of 1 + t is taken at a working precision that is '
+                       'prec + constant: for a small argument only prec + log2|t| bits of t survive the sum, and the '
+                       'result loses all its digits (the real asinh / atanh raise the precision by -mag; '
+                       'mp.atanh(mpc(1e-8, 0)) == 9.99999999999821e-09, mp.asinh(mpc(1e-20, 0)) == 0)'))
